@@ -390,21 +390,27 @@ def block_ctor(prog, ctx):
     sx = Symx(prog, fn)
     from ..symx import State
     st = State({})
-    # which local tables collect heights / widths
+    # which local tables collect heights / widths: read off the loop summaries (push_back and indexed fill look the same)
     role = {}
-    for c_ in calls(fn):
-        if c_.get('kind') == 'method' and c_['callee']['name'] == 'push_back' and strip(c_['obj']).get('k') == 'Ref':
-            a0 = strip_casts(c_['args'][0])
-            if a0.get('k') == 'Call' and a0.get('kind') == 'method' and a0['callee']['name'] in ('Rows', 'Columns'):
-                ob = show(a0['obj']).replace(' ', '')
-                tab = strip(c_['obj'])['name']
-                # heights: blocks[row][0].Rows() ; widths: blocks[0][col].Columns()
-                if a0['callee']['name'] == 'Rows' and ob.startswith(blocks + '[') and ob.endswith('][0]'):
-                    role[tab] = 'heights'
-                elif a0['callee']['name'] == 'Columns' and ob.startswith(blocks + '[0]['):
-                    role[tab] = 'widths'
-                else:
-                    role[tab] = 'other:' + show(a0)
+    kk = sp.Symbol('k', integer=True)
+    try:
+        fin = [o for o in Symx(prog, fn).run() if o.kind != 'exit']
+    except Undecided:
+        fin = []
+    for o in fin[:1]:
+        for key, v in o.state.env.items():
+            if not isinstance(v, Arr) or str(v.name).startswith('this.') or not v.defs:
+                continue
+            try:
+                t = v.read((kk,))
+            except Exception:
+                continue
+            if isinstance(t, sp.core.function.AppliedUndef) and t.func.__name__ == blocks + '.rows' and tuple(t.args) == (kk, 0):
+                role[str(v.name)] = 'heights'
+            elif isinstance(t, sp.core.function.AppliedUndef) and t.func.__name__ == blocks + '.columns' and tuple(t.args) == (0, kk):
+                role[str(v.name)] = 'widths'
+            elif isinstance(t, sp.Basic) and any(f.func.__name__ in (blocks + '.rows', blocks + '.columns') for f in t.atoms(sp.core.function.AppliedUndef)):
+                role[str(v.name)] = 'other:' + str(t)
     probs = []
     if sorted(role.values()) != ['heights', 'widths']:
         probs.append('height/width tables not recognised: %s' % role)
@@ -423,8 +429,11 @@ def block_ctor(prog, ctx):
                 if d.get('init') is not None and any(n.get('k') == 'Call' and (n.get('callee') or {}).get('name') == 'accumulate' for n in walk_expr(d['init'])):
                     try:
                         v = sx.sym(d['init'], st)
-                        if isinstance(v, sp.core.function.AppliedUndef) and v.func.__name__ == 'ACCUM':
-                            offs[d['name']] = (str(v.args[0])[4:], v.args[1], str(v.args[2]), v.args[3])
+                        sums_ = list(v.atoms(sp.Sum)) if isinstance(v, sp.Basic) else []
+                        if len(sums_) == 1 and len(sums_[0].limits) == 1 and isinstance(sums_[0].function, sp.core.function.AppliedUndef) \
+                                and tuple(sums_[0].function.args) == (sums_[0].limits[0][0],):
+                            iv_, lo_, hi_ = sums_[0].limits[0]
+                            offs[d['name']] = (sums_[0].function.func.__name__, lo_, str(sp.simplify(hi_ + 1)), sp.simplify(v - sums_[0]))
                     except Undecided:
                         pass
     if asg is None:
